@@ -7,8 +7,8 @@ View == <<cfg, st>>
 Cfgs == [cache : BOOLEAN, per : BOOLEAN, ov : BOOLEAN, fset : BOOLEAN, fdel : BOOLEAN]
 Cls  == {"Base", "Mid", "Leaf"}
 Acts == {[op |-> "read", c |-> c, via |-> v] : c \in Cls, v \in {"class", "instance"}}
-        \cup {[op |-> "assign", c |-> c, v |-> I(5)] : c \in Cls} \cup {[op |-> "delete", c |-> c] : c \in Cls}
-        \cup {[op |-> "under", u |-> u] : u \in 0..1}
+        \cup {[op |-> "assign", c |-> c, v |-> I(5)] : c \in Cls} \cup {[op |-> "assign", c |-> "Mid", v |-> PN]} \cup {[op |-> "delete", c |-> c] : c \in Cls}
+        \cup {[op |-> "under", u |-> u] : u \in 0..2}
 Init == cfg \in Cfgs /\ st = CPInit /\ last = [a |-> [op |-> "init"], res |-> "ok", val |-> N]
 Next == \E a \in Acts : LET r == CPStep(cfg, st, a) IN st' = r.st /\ cfg' = cfg /\ last' = [a |-> a, res |-> r.res, val |-> r.val]
 Spec == Init /\ [][Next]_vars
